@@ -305,6 +305,11 @@ class C12(Prop):
                 text = ('#[derive_ex(%s)] %s' % (traits, decl)) if mode == 'A' else '#[derive(Ex)] #[derive_ex(%s)] %s' % (traits, decl)
                 lits.append(l2.Module(4 * 10 ** 6 + 2 * k + (mode == 'D'),
                                       head + decl + '\npub mod twin { #[allow(unused_imports)] use super::*; #[derive(%s)] %s }\npub fn run() {}' % (traits, decl), _Lit(text)))
+        # the same requests under other SPELLINGS of the attribute: several attribute-macro invocations stacked on the item,
+        # written with the crate path or through a renamed import
+        for k, (head, traits, decl) in enumerate(REQUEST_SPELLINGS):
+            lits.append(l2.Module(5 * 10 ** 6 + k, head + '\n' + decl + '\npub mod twin { #[allow(unused_imports)] use super::*; '
+                                  '#[derive(%s)] %s }\npub fn run() {}' % (traits, decl), _Lit(head.replace('\n', ' ') + ' ' + decl)))
         l2.compile_parallel([('c12lit', lits)], prelude=PRELUDE, check_only=True)
         for mo in lits:
             if not mo.compiled:
@@ -331,6 +336,20 @@ STD_ACCEPTED_SHAPES = [
     ('Clone, Debug, Default, PartialEq, Eq, PartialOrd, Ord, Hash', 'pub struct X<T>(pub T, pub u8) where Self: Sized, T: Copy;'),
     ('Clone, Debug, PartialEq, Eq, Hash', 'pub enum X<T> where Self: ::core::marker::Send { A(T), B { x: u8 } }'),
     ('Debug, PartialEq, Eq, PartialOrd, Ord, Hash', '#[allow(unused_parens)] pub struct X { pub a: u8, pub b: (str) }'),
+]
+
+
+_E = 'pub enum X<T> { A(T), #[default] B, C { c: u8 } }'
+_S = 'pub struct X<T>(pub T, pub u8);'
+REQUEST_SPELLINGS = [
+    ('#[::derive_ex::derive_ex(Clone, Debug)]\n#[::derive_ex::derive_ex(PartialEq, Default)]', 'Clone, Debug, PartialEq, Default', _S),
+    ('#[::derive_ex::derive_ex(Clone, Debug)]\n#[::derive_ex::derive_ex(PartialEq, Default)]', 'Clone, Debug, PartialEq, Default', _E),
+    ('#[derive_ex::derive_ex(Clone)]\n#[derive_ex::derive_ex(Default)]\n#[derive_ex::derive_ex(Debug)]', 'Clone, Default, Debug', _E),
+    ('#[derive_ex::derive_ex(Default)]\n#[derive_ex::derive_ex(PartialEq, Eq, PartialOrd, Ord, Hash)]', 'Default, PartialEq, Eq, PartialOrd, Ord, Hash', _E),
+    ('#[dx(Clone)]\n#[dx(Default, Debug)]', 'Clone, Default, Debug', _E + '\nuse ::derive_ex::derive_ex as dx;'),
+    ('#[derive_ex(Clone)]\n#[::derive_ex::derive_ex(Default, Debug)]', 'Clone, Default, Debug', _E + '\nuse ::derive_ex::derive_ex;'),
+    ('#[::derive_ex::derive_ex(Default, Debug)]\n#[derive_ex(Clone)]', 'Clone, Default, Debug', _E + '\nuse ::derive_ex::derive_ex;'),
+    ('#[derive_ex(Clone)]\n#[derive_ex(Default, Debug)]', 'Clone, Default, Debug', _E + '\nuse ::derive_ex::derive_ex;'),
 ]
 
 
